@@ -323,6 +323,22 @@ def directed(rp):
         p = s.check()
         if s.where('w') != [CANCELED]: p.append('w is %s (expected canceled once), order %s' % (s.where('w'), order))
         out.append(('cancel-%s' % order, p, ['arrive x(2 cores) on 1x2', 'step', order + ' w', 'step x2']))
+    # a task that needs a named environment waits until that is registered, and is
+    # not lost by the wait pool scans in between
+    s = Sim(rp, 1, 2, 0)
+    s.arrive([s.task('x', cpr=2)]); s.step()
+    s.arrive([s.task('e', cpr=1, named_env='ve1'), s.task('w', cpr=2)]); s.step()
+    p = s.check()
+    s.complete('x'); s.step(2)
+    if s.where('e') != ['waiting']: p.append('e needs environment ve1 (not registered): should wait, is %s' % s.where('e'))
+    if s.where('w') != [STARTED]: p.append('w should start after the release, is %s' % s.where('w'))
+    s.c.control_cb('control_pubsub', {'cmd': 'register_named_env', 'arg': {'env_name': 've1'}})
+    s.complete('w'); s.step(3)
+    if s.where('e') != [STARTED]: p.append('e should start once ve1 is registered and cores are free, is %s' % s.where('e'))
+    out.append(('named-env-waiter-survives-scans', p + s.check(),
+                ['arrive x(2 cores) on 1x2', 'step', 'arrive e(1 core, named_env ve1), w(2 cores)', 'step', 'complete x', 'step x2',
+                 'register_named_env ve1', 'complete w', 'step x3']))
+
     # a task naming a partition (PRTE) on an otherwise idle pilot
     s = Sim(rp, 2, 2, 0, partition_ids=[0, 1])
     s.arrive([s.task('part', cpr=1, partition=0)]); s.step(2)
@@ -406,7 +422,14 @@ KEYS = ['agent/scheduler/base.py:AgentSchedulingComponent._schedule_incoming#can
 
 
 @builder(*KEYS)
-def sched_histories(case, rp, known=()):
+def sched_histories(case, rp, known=None):
+    if known is None:
+        # scenarios recorded as open findings are not evidence against another
+        # obligation: leave them out of the replay
+        import json, os
+        kf = json.load(open(os.path.join(os.path.dirname(os.path.dirname(os.path.abspath(__file__))), 'known_findings.json')))
+        known = [f['case'].split(':', 1)[1] for f in kf.get('findings', [])
+                 if f.get('status') != 'fixed' and f.get('bounded') == 'sched-histories' and f.get('case', '').startswith('directed:')]
     n = 0
     for name, probs, hist in directed(rp):
         n += 1
